@@ -221,6 +221,7 @@ class Ctx:
                 if signature not in [h[0] for h in self.known_hits]:
                     self.known_hits.append((signature, k['text']))
                 return 'known'
+        text = text if len(text) <= 400 else text[:400] + '…'
         if any(v[0] == signature for v in self.violations):
             return 'violation'
         replay_obj = dict(replay_obj)
